@@ -194,12 +194,26 @@ func c18Interp(p0, p1 []string, sched string, regs int) string {
 	return show(0) + "|" + show(1) + "|" + strings.Join(gs, ",")
 }
 
+// fingerprint of the shared tables (c18work.SharedDigest) taken in-process after the cold start
+var c18Digest string
+
+var c18DigestLine = regexp.MustCompile(`(?m)^DIGEST (\S+)`)
+
+// c18CheckDigest: a fresh process must end with the same shared tables as this one
+func c18CheckDigest(c *Ctx, suite, desc, stdout string) {
+	m := c18DigestLine.FindStringSubmatch(stdout)
+	if m == nil || c18Digest == "" {
+		return
+	}
+	c.Oracle(suite, m[1] == c18Digest, "shared-tables-differ-between-processes", desc, "this process "+c18Digest+", that process "+m[1])
+}
+
 var c18RaceFrame = regexp.MustCompile(`github\.com/makiuchi-d/gozxing[^\s(]*\.[A-Za-z_0-9()*.]+`)
 
 func runC18(c *Ctx) {
 	c.res.Rule = "static: every function of every library package scanned (go/types) for writes to package-level state outside init, compared with the reviewed allow-list and evaluated by the Lean premise checker; " +
 		"dynamic: K in {2,8,64} goroutines x GOMAXPROCS {2,4,8,16}, private reader/writer instances over QR, Data Matrix, nine 1-D symbologies and Aztec decode, randomised start, every result compared with the sequential result; " +
-		"race detector: same workload in a -race binary. non-trivial = distinct (job, K, procs) result comparison"
+		"race detector: same workload in a -race binary; cold start: fresh processes (race and plain build) in which, kind after kind of operation (27 kinds: symbology x variant, Data Matrix square/rectangular, Aztec symbols of all five fields with flipped modules), all goroutines are released together for the FIRST use, reference computed afterwards and once more in reversed order; results must not depend on the order of earlier calls. non-trivial = distinct (job, K, procs) result comparison"
 	repo := c06RepoDir()
 	hdir := c18HarnessDir()
 	// ---------- (1) static effect summary ----------
@@ -305,14 +319,21 @@ func runC18(c *Ctx) {
 		c.Cmp("machine", fmt.Sprintf("c18 run %s %s %s 3", enc(p0), enc(p1), sched), c18Interp(p0, p1, strings.Trim(sched, "x"), 3))
 	}
 
+	tPhase := time.Now()
+	lap := func(what string) {
+		c.Remark(fmt.Sprintf("timing: %s %.1fs", what, time.Since(tPhase).Seconds()))
+		tPhase = time.Now()
+	}
 	// ---------- (2) in-process concurrency, result comparison ----------
 	nph := c18work.LoadPhotos(repo)
 	c.NoteN("aztec-photos", nph)
 	jobs := c18work.Jobs(c.Seed, c.Pick(96, 480))
 	// cold start under concurrency first: nothing of the library has run in this process yet
-	coldRes, coldBad := c18work.Concurrent(jobs, 16, 1, 16, c.Seed)
+	// (phase-wise: kind after kind of operation, all 16 goroutines released together — c18work.ColdStart)
+	coldRes, coldPhases := c18work.ColdStart(jobs, 16, 16, c.Seed)
+	c.NoteN("cold-start:in-process-phases", len(coldPhases))
 	want := c18work.Sequential(jobs)
-	coldBad = append(coldBad, c18work.Compare(coldRes, want)...)
+	coldBad := c18work.Compare(coldRes, want)
 	if len(coldBad) > 0 {
 		c.Oracle("c18-run", false, "concurrent-result-differs", "in-process cold start k=16 procs=16", strings.Join(coldBad, "\n"))
 	} else {
@@ -332,6 +353,24 @@ func runC18(c *Ctx) {
 	again := c18work.Sequential(jobs)
 	for i := range want {
 		c.Oracle("c18-run", want[i] == again[i], "sequential-not-deterministic", fmt.Sprintf("job %d %v", i, jobs[i]), want[i]+" vs "+again[i])
+	}
+	// "every call returns exactly what it returns when run alone": the result of a call must not depend on which calls
+	// ran before it in the process (process-wide caches, memos): same jobs in reversed and in shuffled order
+	// dynamic counterpart of `library_shared_unchanged`: the shared init-time tables, seen through the exported API,
+	// after the cold start ... (compared below with the state after all concurrent runs and with every fresh process)
+	c18Digest = c18work.SharedDigest()
+	c.Oracle("c18-run", !strings.HasPrefix(c18Digest, "PANIC"), "shared-tables-unreadable", "SharedDigest after cold start", c18Digest)
+	lap("cold start + sequential references")
+	rev, shuf := c18work.Orders(len(jobs), c.Seed)
+	for oi, ord := range [][]int{rev, shuf} {
+		other := c18work.SequentialOrder(jobs, ord)
+		for i := range want {
+			c.Oracle("c18-run", want[i] == other[i], "result-depends-on-earlier-calls",
+				fmt.Sprintf("job %d %+v (order %d: %s)", i, jobs[i], oi, []string{"reversed", "shuffled"}[oi]), "in list order: "+want[i]+"\nin the other order: "+other[i])
+		}
+	}
+	for _, j := range jobs {
+		c.Note("job-kind:" + c18work.Kind(j))
 	}
 	type cfg struct{ k, reps, procs int }
 	var cfgs []cfg
@@ -363,6 +402,12 @@ func runC18(c *Ctx) {
 		}
 	}
 	runtime.GC()
+	if d2 := c18work.SharedDigest(); d2 != c18Digest {
+		c.Oracle("c18-run", false, "shared-tables-changed", "SharedDigest after the concurrent runs", "after cold start "+c18Digest+", after the concurrent runs "+d2)
+	} else {
+		c.Oracle("c18-run", true, "", "SharedDigest after the concurrent runs", "")
+	}
+	lap("in-process runs")
 
 	// ---------- (3) race detector ----------
 	tmp, err := os.MkdirTemp("", "c18race")
@@ -389,8 +434,15 @@ func runC18(c *Ctx) {
 		return
 	}
 	c.Remark(fmt.Sprintf("race binary built in %.1fs", time.Since(t0).Seconds()))
+	// ---------- (4) cold start in fresh processes (wp c18gen) ----------
+	defer func() {
+		lap("race-detector runs")
+		c18ColdProcesses(c, hdir, tmp, bin, env, repo)
+		lap("cold-start processes")
+	}()
 	type rcfg struct{ k, reps, procs, jobs int }
-	rcfgs := []rcfg{{2, c.Pick(4, 60), 2, 48}, {8, c.Pick(2, 20), 8, 48}, {8, c.Pick(1, 20), 3, 48}, {64, c.Pick(1, 6), 16, 36}}
+	// (the job list is -jobs plus the 19 sequence jobs of c18work.SequenceJobs)
+	rcfgs := []rcfg{{2, c.Pick(3, 60), 2, c.Pick(30, 48)}, {8, c.Pick(1, 20), 8, c.Pick(30, 48)}, {8, c.Pick(1, 20), 3, c.Pick(30, 48)}, {64, c.Pick(1, 6), 16, c.Pick(12, 36)}}
 	for i, rc := range rcfgs {
 		cmd := exec.Command(bin, "-repo", repo, "-seed", fmt.Sprint(c.Seed+uint64(i)), "-jobs", fmt.Sprint(rc.jobs),
 			"-k", fmt.Sprint(rc.k), "-reps", fmt.Sprint(rc.reps), "-procs", fmt.Sprint(rc.procs))
@@ -411,6 +463,7 @@ func runC18(c *Ctx) {
 				code = ee.ExitCode()
 			}
 		}
+		c18CheckDigest(c, "c18-race", desc, stdout.String())
 		switch {
 		case code == 0:
 			c.Oracle("c18-race", true, "", desc, "")
@@ -428,6 +481,81 @@ func runC18(c *Ctx) {
 			c.Oracle("c18-race", false, "concurrent-result-differs", desc, stdout.String())
 		default:
 			c.Oracle("c18-race", false, "race-runner-crashed", desc, fmt.Sprintf("exit %d\n%s\n%s", code, stdout.String(), stderr.String()))
+		}
+	}
+}
+
+// c18ColdProcesses: the cold-start phases of c18work.ColdStart in FRESH processes — the race-detector binary and a
+// plain build of the same program (no instrumentation: tighter timing, so that a torn first-use initialisation shows
+// as a wrong result or a panic).  Every process gets another seed, i.e. another order of the phases.
+func c18ColdProcesses(c *Ctx, hdir, tmp, raceBin string, env []string, repo string) {
+	plain := filepath.Join(tmp, "c18cold")
+	build := exec.Command("go", "build", "-tags", "verif", "-o", plain, "./cmd/c18race")
+	build.Dir = hdir
+	build.Env = env
+	if out, err := build.CombinedOutput(); err != nil {
+		c.Remark("cold-start binary did not build: " + strings.TrimSpace(string(out)))
+		plain = ""
+	}
+	type ccfg struct {
+		bin         string
+		race        bool
+		k, procs, n int
+	}
+	var cfgs []ccfg
+	for i := 0; i < c.Pick(2, 12); i++ {
+		cfgs = append(cfgs, ccfg{raceBin, true, []int{4, 8, 16}[i%3], []int{4, 8, 16}[i%3], c.Pick(12, 36)})
+	}
+	if plain != "" {
+		for i := 0; i < c.Pick(6, 60); i++ {
+			cfgs = append(cfgs, ccfg{plain, false, []int{16, 8, 32, 2}[i%4], []int{16, 8, 16, 2}[i%4], c.Pick(24, 48)})
+		}
+	}
+	for i, cf := range cfgs {
+		seed := c.Seed*1000 + uint64(i) + 17
+		cmd := exec.Command(cf.bin, "-cold", "-repo", repo, "-seed", fmt.Sprint(seed), "-jobs", fmt.Sprint(cf.n), "-k", fmt.Sprint(cf.k), "-procs", fmt.Sprint(cf.procs))
+		cmd.Env = append(env, "GORACE=halt_on_error=1 exitcode=66")
+		var stdout, stderr bytes.Buffer
+		cmd.Stdout, cmd.Stderr = &stdout, &stderr
+		err := cmd.Run()
+		kind := "plain"
+		if cf.race {
+			kind = "race"
+		}
+		desc := fmt.Sprintf("c18race(%s build) -cold -seed %d -jobs %d -k %d -procs %d", kind, seed, cf.n, cf.k, cf.procs)
+		c.NoteN("cold-start:"+kind+"-processes", 1)
+		c.mu.Lock()
+		c.res.Evaluations += cf.k * (cf.n + 19)
+		c.mu.Unlock()
+		code := 0
+		if err != nil {
+			code = -1
+			if ee, ok := err.(*exec.ExitError); ok {
+				code = ee.ExitCode()
+			}
+		}
+		c18CheckDigest(c, "c18-cold", desc, stdout.String())
+		switch {
+		case code == 0:
+			c.Oracle("c18-cold", true, "", desc, "")
+		case code == 66 || strings.Contains(stderr.String(), "DATA RACE"):
+			rep := stderr.String()
+			site := "unknown"
+			if m := c18RaceFrame.FindString(rep); m != "" {
+				site = strings.TrimPrefix(m, "github.com/makiuchi-d/gozxing")
+			}
+			if len(rep) > 6000 {
+				rep = rep[:6000]
+			}
+			c.Oracle("c18-cold", false, "data-race:"+site, desc+"\n"+rep, "race detector report during the cold-start phases")
+		case code == 3:
+			c.Oracle("c18-cold", false, "cold-start-result-differs", desc, stdout.String())
+		default:
+			out := stdout.String() + "\n" + stderr.String()
+			if len(out) > 4000 {
+				out = out[:4000]
+			}
+			c.Oracle("c18-cold", false, "cold-start-crashed", desc, fmt.Sprintf("exit %d\n%s", code, out))
 		}
 	}
 }
